@@ -191,7 +191,7 @@ class NoTrace(Monitor):
       return
     if not self.inject:
       return
-    # counting run
+    # counting run; the faulted re-runs become separate jobs (run in parallel by run())
     d0 = ctx.rebuild()
     s0 = Seams(d0)
     try:
@@ -200,31 +200,62 @@ class NoTrace(Monitor):
       s0.remove()
     if e is not None:
       return      # nondeterministic? the explorer's run succeeded; be conservative
-    counts = dict(s0.counts)
+    jobs = []
     for seam in SEAMS:
-      for i in range(1, counts[seam] + 1):
-        d = ctx.rebuild()
-        s = Seams(d, fault=(seam, i))
-        try:
-          g, e = d.try_apply(ctx.bundle)
-        finally:
-          s.remove()
-        n_faults += 1
-        if s.fired is None:
-          yield (vkey('C04', 'harness/fault-not-reached', ctx, extra=seam),
-                 "fault %s #%d was never reached when re-running %r (nondeterministic run?)" % (
-                     seam, i, ctx.label))
-          continue
-        if e is None:
-          continue     # the injected exception was absorbed (e.g. turned into a cell error)
-        n_raised += 1
-        fseam, fi, phase, dname = s.fired
-        kind = 'injected/%s/%s%s' % (fseam, phase, ('/' + dname) if dname and phase == 'actions' else '')
-        detail = '%s #%d in %s phase%s' % (fseam, fi, phase, (' at ' + dname) if dname else '')
-        for v in self.after_failure(ctx, d, ctx.pre_dump, kind, detail):
-          yield v
-    ctx.extra['faults_injected'] = n_faults
-    ctx.extra['faulted_bundles_raised'] = n_raised
+      for i in range(1, s0.counts[seam] + 1):
+        jobs.append((ctx.world.name, ctx.origin, list(ctx.hist), ctx.label, ctx.bundle, seam, i))
+    ctx.extra['fault_jobs'] = jobs
+
+
+class _JobCtx(object):
+  """Minimal stand-in for explore.Ctx inside a fault job."""
+
+  def __init__(self, world, origin, hist, label, bundle):
+    self.world, self.origin, self.hist, self.label, self.bundle = world, origin, hist, label, bundle
+
+  def rebuild(self):
+    from mc.explore import build
+    return build(self.world, self.origin, [b for (_l, b) in self.hist])[0]
+
+  def history_json(self):
+    return [[l, json.loads(b)] for (l, b) in self.hist] + [[self.label, json.loads(self.bundle)]]
+
+
+_WORLDS = {}
+
+
+def run_fault_chunk(jobs):
+  out = {'faults': 0, 'raised': 0, 'absorbed': 0, 'violations': []}
+  mon = NoTrace()
+  pre_cache = {}
+  for (wname, origin, hist, label, bundle, seam, i) in jobs:
+    ctx = _JobCtx(_WORLDS[wname], origin, hist, label, bundle)
+    d = ctx.rebuild()
+    pre_dump = d.dump()
+    s = Seams(d, fault=(seam, i))
+    try:
+      g, e = d.try_apply(bundle)
+    finally:
+      s.remove()
+    out['faults'] += 1
+    results = []
+    if s.fired is None:
+      results.append(('C04/harness/fault-not-reached/%s/%s' % (wname, seam),
+                      "fault %s #%d was never reached when re-running %r" % (seam, i, label), {}))
+    elif e is None:
+      out['absorbed'] += 1    # the injected exception was absorbed (e.g. became a cell error)
+    else:
+      out['raised'] += 1
+      fseam, fi, phase, dname = s.fired
+      kind = 'injected/%s/%s%s' % (fseam, phase, ('/' + dname) if dname and phase == 'actions' else '')
+      detail = '%s #%d in %s phase%s' % (fseam, fi, phase, (' at ' + dname) if dname else '')
+      results = list(mon.after_failure(ctx, d, pre_dump, kind, detail))
+    for res in results:
+      v = {'key': res[0], 'message': res[1], 'world': wname, 'origin': origin,
+           'history': ctx.history_json(), 'monitor': 'no-trace', 'count': 1}
+      v.update(res[2] if len(res) > 2 else {})
+      out['violations'].append(v)
+  return out
 
 
 NAMES = ['W_rec', 'W_schema', 'W_sum', 'W_2way', 'W_trig']
@@ -246,11 +277,48 @@ P = HistProp('C04', _worlds, lambda w, t: [NoTrace()], D,
 
 
 def run(tier, report):
+  from mc.enumprop import pmap
   P.run(tier, report)
   cov = report.coverage
-  # fault_enumeration level wants evaluations / distinct_nontrivial measured from fault runs
-  cov['evaluations'] = cov.get('transitions', 0) + cov.get('faults_injected', 0)
-  cov['distinct_nontrivial'] = cov.get('faulted_bundles_raised', 0) + cov.get('natural_failures', 0)
+  jobs = cov.pop('fault_jobs', [])
+  for w in _worlds(tier):
+    _WORLDS[w.name] = w
+    w.base()
+  # Small chunks, interleaved, so that bundles with hundreds of seam crossings spread over cores.
+  nchunks = max(1, min(len(jobs), 16 * 12))
+  chunks = [jobs[i::nchunks] for i in range(nchunks)]
+  faults = raised = absorbed = 0
+  viols = []
+  for part in pmap(run_fault_chunk, chunks):
+    faults += part['faults']
+    raised += part['raised']
+    absorbed += part['absorbed']
+    viols.extend(part['violations'])
+  report.merge_violations(viols)
+  cov['faults_injected'] = faults
+  cov['faulted_bundles_raised'] = raised
+  cov['faults_absorbed'] = absorbed
+  cov['evaluations'] = cov.get('transitions', 0) + faults
+  cov['distinct_nontrivial'] = raised + cov.get('natural_failures', 0)
 
 
-replay = P.replay
+def replay(viol):
+  H.check_hashseed()
+  if 'fault' not in viol or not str(viol.get('key', '')).split('/')[2:3] == ['injected']:
+    return P.replay(viol)
+  import re
+  m = re.match(r'(\S+) #(\d+) ', viol['fault'])
+  seam, i = m.group(1), int(m.group(2))
+  for w in _worlds('thorough'):
+    _WORLDS[w.name] = w
+  hist = [(l, json.dumps(b)) for (l, b) in viol['history']]
+  job = (viol['world'], viol['origin'], hist[:-1], hist[-1][0], hist[-1][1], seam, i)
+  outs = [sorted(v['key'] for v in run_fault_chunk([job])['violations']) for _ in range(2)]
+  if outs[0] != outs[1]:
+    print("HARNESS-ERROR nondeterministic replay: %s vs %s" % (outs[0], outs[1]))
+    return 2
+  print("keys now: %s" % outs[0])
+  if viol['key'] in outs[0]:
+    print("VIOLATION property=C04 replay=(this file) reproduced")
+    return 1
+  return 0
